@@ -132,7 +132,7 @@ func init() {
 		Rules: []*core.Rule{
 			{ID: "C09.R1", Title: "forward may-analysis over each stream-mode function's CFG: after a node that may reach (*Stream).read, every variable taken from the window (bufptr/stat pointer, buf slice, loaded byte) is stale until reassigned; no stale variable is read", Covers: "a refill in the middle of a token does not change the result", Min: 12, Run: c09r1},
 			{ID: "C09.R2", Title: "in nullBytes/trueBytes/falseBytes each `s.char() != K` whose body refills is a loop condition or is followed by a second comparison with K before the cursor advances", Covers: "a literal split across chunks is still checked letter by letter", Min: 10, Run: c09r2},
-			{ID: "C09.R3", Title: "the error result of r.Read in (*Stream).read flows to a Stream field or a return value", Covers: "a reader error other than EOF is reported, never turned into a decoded value", Min: 1, Run: c09r3},
+			{ID: "C09.R3", Title: "the error result of r.Read in (*Stream).read flows to a Stream field or a return value, and every success return of Decoder.DecodeWithOption is dominated by a test of that kept error which returns it", Covers: "a reader error other than EOF is reported, never turned into a decoded value", Min: 2, Run: c09r3},
 			{ID: "C09.R5", Title: "the operand of utf8.FullRune on the stream window ends at s.length", Covers: "a multi-byte character split across chunks decodes as in buffer mode", Min: 1, Run: c09r5},
 			{ID: "C09.R9", Title: "decodeKeyCharByUnicodeRune and its stream sibling move the cursor by the same amounts on their success returns (+3 after one escape, +9 after a surrogate pair) and read their hex digits from 4-byte slices at the same offsets", Covers: "an escaped object key is consumed alike in both modes", Min: 3, Run: c09r9},
 			{ID: "C06.R5", Title: "look-ahead reads are length-guarded (shared with C06; in stream mode a single refill is not a guard, a loop until enough bytes is)", Covers: "escapes split over several reads decode as in buffer mode", Min: 25, Run: c06r5},
